@@ -43,6 +43,12 @@ int vnacal_set_fprecision(vnacal_t *vcp, int precision)
 		"vnacal_set_fprecision: precision must be at least 1");
 	return -1;
     }
+    if (precision > VNACAL_MAX_PRECISION) {
+	_vnacal_error(vcp, VNAERR_USAGE,
+		"vnacal_set_fprecision: precision cannot exceed %d",
+		VNACAL_MAX_PRECISION);
+	return -1;
+    }
     vcp->vc_fprecision = precision;
     return 0;
 }
